@@ -43,5 +43,10 @@ Progs04_3 == {[w \in {1, 2, 3} |-> IF w = 1 THEN a ELSE IF w = 2 THEN b ELSE c] 
 EmitSched == AllDone => PrintT("SCHED " \o ToJson([init |-> init, prog |-> [c \in Clients |-> prog[c]], sched |-> sched,
                                                    resp |-> [c \in Clients |-> [i \in 1..Len(resp[c]) |-> resp[c][i].st]],
                                                    final |-> [p |-> rec.p, v |-> rec.val]]))
-View == <<prog, init, rec, ctr, klock, shard, pc, loc, resp>>
+View == <<prog, init, rec, ctr, klock, shard, pc, loc, resp, usage, now>>
+(* accounting under races with the clock: a lookup (lazy collection), a store of another size, and a second passing at any point *)
+Tk(t) == [C("tick", "", "0", "90") EXCEPT !.ttl = t, !.ttls = NatToStr(t)]
+VLook == { C("get", "", "0", "1"), C("add", "37", "0", "7"), C("replace", "37", "0", "8"), C("incr", "", "0", "11"), C("append", "3c313e", "0", "9") }
+VWrite == { Cttl("set", "3838383838", "0", "15", 1), C("set", "38", "0", "2"), Cttl("add", "38", "0", "16", 1), C("delete", "", "0", "5"), C("get", "", "0", "21") }
+ProgsClock == {[w \in {1, 2, 3} |-> IF w = 1 THEN a ELSE IF w = 2 THEN b ELSE t] : a \in VLook, b \in VWrite, t \in {Tk(6), Tk(7)}}
 =============================================================================
